@@ -1,29 +1,34 @@
 #!/bin/bash
-# Applies every seeded change to /repo in turn, runs the quick check of its property, and undoes it.
-# Usage: tools/run_seeds.sh [seed-id ...]   -> writes seeded/RESULTS.txt and updates meta.json detected_by
+# Applies every seeded change in turn to a scratch worktree of /repo (never to /repo itself), runs the
+# quick check of its property against that worktree, and records what was detected.
+# Usage: tools/run_seeds.sh [seed-id ...]   -> writes seeded/RESULTS.txt (all seeds) and updates meta.json detected_by
 cd /verif
-if ! git -C /repo diff --quiet; then echo "refusing: /repo has uncommitted changes"; exit 2; fi
+export GOFLAGS=-mod=mod GOPROXY=off GOSUMDB=off GOTOOLCHAIN=local PATH=/opt/veriftools/go1.26.8/bin:$PATH
+[ -x bin/govc ] || ./build.sh
+wt=/tmp/wt/seedrun-$$; sv=/tmp/seedrun-verif-$$
+git -C /repo worktree add -q --detach $wt HEAD || exit 2
+mkdir -p $sv; cp props.json known_findings.json $sv/
+trap 'git -C /repo worktree remove --force $wt >/dev/null 2>&1; rm -rf $sv' EXIT
 seeds=("$@"); [ ${#seeds[@]} -eq 0 ] && seeds=($(ls seeded | grep -v RESULTS))
 for s in "${seeds[@]}"; do
   d=/verif/seeded/$s; [ -f $d/patch.diff ] || continue
   prop=$(python3 -c "import json;print(json.load(open('$d/meta.json'))['property'])")
-  if ! python3 -c "import json,sys;sys.exit(0 if any(c['property_id']=='$prop' for c in json.load(open('MANIFEST.json'))['checks']) else 1)"; then echo "$s $prop not-claimed" | tee -a seeded/RESULTS.tmp; python3 - "$d" <<'PY'
+  if ! python3 -c "import json,sys;sys.exit(0 if any(c['property_id']=='$prop' for c in json.load(open('MANIFEST.json'))['checks']) else 1)"; then
+    line="$s $prop not-claimed"; det='property not claimed (not_applicable)'
+  elif ! git -C $wt apply $d/patch.diff; then
+    line="$s $prop apply-failed"; det='patch does not apply to the current tree'
+  else
+    out=$(./bin/govc check -repo $wt -verif $sv -prop $prop -tier quick 2>&1); rc=$?
+    git -C $wt checkout -q -- . ; git -C $wt clean -fdq
+    names=$(echo "$out" | grep -E "^  obligation " | awk '{print $2}' | tr -d ':' | sort -u | tr '\n' ' ')
+    line="$s $prop rc=$rc ${names}"
+    if [ "$rc" = "1" ]; then det="quick check exits 1; failed obligations: ${names}"; else det="NOT detected (quick check exit $rc)"; fi
+  fi
+  echo "$line"
+  python3 - "$d" "$det" <<'PY'
 import json,sys
-p=sys.argv[1]+'/meta.json';m=json.load(open(p));m['detected_by']='property not claimed (not_applicable)';json.dump(m,open(p,'w'),indent=1)
+p=sys.argv[1]+'/meta.json';m=json.load(open(p));m['detected_by']=sys.argv[2].strip();json.dump(m,open(p,'w'),indent=1)
 PY
-  continue; fi
-  git -C /repo apply $d/patch.diff || { echo "$s apply-failed" | tee -a seeded/RESULTS.tmp; continue; }
-  out=$(./check $prop quick 2>&1); rc=$?
-  git -C /repo checkout -- .
-  git -C /repo clean -fdq -- . >/dev/null 2>&1
-  viol=$(echo "$out" | grep -E "^FAIL|^VIOLATION" | head -6)
-  names=$(echo "$out" | grep -E "^  obligation " | awk '{print $2}' | tr -d ':' | sort -u | tr '\n' ' ')
-  echo "$s $prop rc=$rc ${names}" | tee -a seeded/RESULTS.tmp
-  python3 - "$d" "$rc" "$names" <<'PY'
-import json,sys
-p=sys.argv[1]+'/meta.json';m=json.load(open(p))
-m['detected_by']= ('quick check exits 1; failed obligations: '+sys.argv[3].strip()) if sys.argv[2]=='1' else ('NOT detected (quick check exit '+sys.argv[2]+')')
-json.dump(m,open(p,'w'),indent=1)
-PY
+  # keep one line per seed in RESULTS.txt
+  touch seeded/RESULTS.txt; grep -v "^$s " seeded/RESULTS.txt > seeded/RESULTS.tmp; echo "$line" >> seeded/RESULTS.tmp; sort seeded/RESULTS.tmp > seeded/RESULTS.txt; rm -f seeded/RESULTS.tmp
 done
-mv seeded/RESULTS.tmp seeded/RESULTS.txt
